@@ -823,3 +823,195 @@ Proof.
   { apply (f_equal (@length N)) in Hsplit. rewrite app_length in Hsplit. destruct rest; [reflexivity|cbn [length] in Hsplit; lia]. }
   subst rest. rewrite app_nil_r in Hsplit. rewrite <- Hsplit in Hok. congruence.
 Qed.
+
+(* ------------------------------------------------------------------ C11: explicit recovery bound, server decoder table *)
+
+(* on the request table every size rule is total once 11 bytes are buffered and never
+   returns more than 268 = 255 + 10 + 3 (byte count at position 10: Read/Write Multiple) *)
+Definition rule_tot_b (r : size_rule) : bool :=
+  match r with
+  | RFixed k => (4 <=? k) && (k <=? 268)
+  | RByteCount p => (1 <=? p) && (p <=? 10)
+  | _ => false
+  end.
+
+Definition rule_tot (r : size_rule) : Prop :=
+  forall data, wfb data = true -> 11 <= zlen data -> exists n, frame_size r data = Ok n /\ 4 <= n <= 268.
+
+Lemma rule_tot_of_bool r : rule_tot_b r = true -> rule_tot r.
+Proof.
+  destruct r as [k|p| | |]; cbn [rule_tot_b]; try discriminate; intros Hb data Hw Hl.
+  - exists k. split; [reflexivity|lia].
+  - cbn [frame_size].
+    destruct (nth_error data (Z.to_nat p)) as [b|] eqn:N.
+    + rewrite (py_index_ok data p b) by (try lia; exact N). cbn [bind]. rewrite cc_rtu_size_closed.
+      pose proof (nth_error_wfb _ _ _ Hw N). eexists. split; [reflexivity|]. unfold zb. lia.
+    + apply nth_error_None in N. unfold zlen in Hl. lia.
+Qed.
+
+Lemma lookup_rows_P (P : size_rule -> Prop) rows fc : forall acc r,
+  Forall (fun row => P (cr_rule row)) rows -> (forall a, acc = Some a -> P a) ->
+  lookup_rows rows fc acc = Some r -> P r.
+Proof.
+  induction rows as [|row t IH]; intros acc r Hall Hacc H; cbn in *.
+  - apply Hacc. exact H.
+  - inversion Hall as [|? ? H1 H2]. subst.
+    eapply IH; [exact H2| |exact H].
+    intros a Ha. destruct (cr_fc row =? fc); [inversion Ha; subst; exact H1 | apply Hacc; exact Ha].
+Qed.
+
+Lemma lookup_rule_P (P : size_rule -> Prop) dc fc :
+  Forall (fun row => P (cr_rule row)) (dc_classes dc) -> P (dc_default dc) -> P (lookup_rule dc fc).
+Proof.
+  intros H1 H2. unfold lookup_rule.
+  destruct (lookup_rows (dc_classes dc) fc None) eqn:E; [|exact H2].
+  eapply lookup_rows_P; [exact H1| |exact E]. intros a Ha. discriminate.
+Qed.
+
+Lemma server_rules_tot fc : rule_tot (lookup_rule server_decoder fc).
+Proof.
+  apply lookup_rule_P.
+  - assert (H : forallb (fun row => rule_tot_b (cr_rule row)) (dc_classes server_decoder) = true) by (vm_compute; reflexivity).
+    rewrite forallb_forall in H. apply Forall_forall. intros row Hin. apply rule_tot_of_bool. apply H. exact Hin.
+  - apply rule_tot_of_bool. reflexivity.
+Qed.
+
+Definition hdr_bounded (h : rhdr) : Prop :=
+  hdr_is_empty h = true \/ exists n, h_len h = Some n /\ n <= 268.
+
+Lemma rtu_populate_total cfg buf h : cf_rules cfg = server_decoder -> wfb buf = true -> 11 <= zlen buf ->
+  exists u n c, rtu_populate cfg {| r_buf := buf; r_hdr := h |} =
+    ({| r_buf := buf; r_hdr := {| h_uid := Some (zb u); h_len := Some n; h_crc := Some c |} |}, None) /\ 4 <= n <= 268.
+Proof.
+  intros Hr Hw Hl. unfold rtu_populate. cbn [r_buf r_hdr].
+  destruct buf as [|u [|fc t]]; try (unfold zlen in Hl; cbn in Hl; lia).
+  rewrite py_index_app_head.
+  assert (E1 : py_index (u :: fc :: t) 1 = Ok fc) by (apply py_index_ok; [lia|reflexivity]).
+  rewrite E1, Hr.
+  destruct (server_rules_tot (zb fc) (u :: fc :: t) Hw Hl) as (n & Hn & Hb). rewrite Hn.
+  exists u, n. eexists. split; [reflexivity|exact Hb].
+Qed.
+
+Lemma split_at2 {A} (l : list A) a : 0 <= a -> a + 2 <= zlen l ->
+  exists x c0 c1 z, l = x ++ [c0; c1] ++ z /\ zlen x = a.
+Proof.
+  intros Ha Hl.
+  pose proof (firstn_skipn (Z.to_nat a) l) as E.
+  assert (L : (2 <= length (skipn (Z.to_nat a) l))%nat) by (rewrite skipn_length; unfold zlen in Hl; lia).
+  destruct (skipn (Z.to_nat a) l) as [|c0 [|c1 z]]; cbn in L; try lia.
+  exists (firstn (Z.to_nat a) l), c0, c1, z. split; [symmetry; exact E|].
+  unfold zlen in *. rewrite firstn_length. lia.
+Qed.
+
+Lemma pyslice_from_len' {A} (l : list A) k : 0 <= k ->
+  Z.of_nat (length (pyslice l (Some k) None)) = Z.max 0 (zlen l - k).
+Proof.
+  intros Hk. unfold pyslice, norm_idx. fold (zlen l). replace (k <? 0) with false by lia.
+  rewrite firstn_length, skipn_length. unfold zlen. lia.
+Qed.
+
+(* RECOVERY BOUND (request direction): whatever the buffer holds (any garbage) and whatever
+   bounded header is pending, once 268 bytes are buffered a call cannot wait any longer: it
+   raises (the serial handlers then reset the framer), or it drops everything and is
+   synchronised, or it delivers a message (justified, see the gate) and consumes at least 4
+   bytes with an empty header. *)
+Theorem rtu_recover_server cfg st chunk st' ds x :
+  cf_rules cfg = server_decoder -> wfb (r_buf st ++ chunk) = true -> hdr_bounded (r_hdr st) ->
+  268 <= zlen (r_buf st ++ chunk) ->
+  rtu_recv cfg st chunk = (st', ds, x) ->
+  x <> FOk \/
+  (r_buf st' = [] /\ r_hdr st' = hdr_empty /\ ds = []) \/
+  (exists d, ds = [d] /\ r_hdr st' = hdr_empty /\ zlen (r_buf st') + 4 <= zlen (r_buf st ++ chunk)).
+Proof.
+  intros Hr Hw Hh Hl. unfold rtu_recv. set (buf := r_buf st ++ chunk) in *.
+  (* isFrameReady is True *)
+  assert (R : exists h1, rtu_ready cfg {| r_buf := buf; r_hdr := r_hdr st |} = ({| r_buf := buf; r_hdr := h1 |}, Ok true)).
+  { unfold rtu_ready. cbn [r_buf r_hdr]. rewrite rc_ready_closed. replace (zlen buf >? 1) with true by lia.
+    destruct Hh as [He | (n & Hn & Hb)].
+    - rewrite He. destruct (rtu_populate_total cfg buf (r_hdr st) Hr Hw ltac:(lia)) as (u & n & c & P & Hn). rewrite P.
+      cbn [hdr_is_empty h_uid h_len h_crc r_hdr]. eexists. rewrite (rc_ready2_closed (zlen buf) n).
+      replace (zlen buf >=? n) with true by lia. reflexivity.
+    - assert (Hne : hdr_is_empty (r_hdr st) = false) by (unfold hdr_is_empty; rewrite Hn; destruct (h_uid (r_hdr st)); reflexivity).
+      rewrite Hne. cbn [r_hdr]. rewrite Hne, Hn. eexists. rewrite (rc_ready2_closed (zlen buf) n).
+      replace (zlen buf >=? n) with true by lia. reflexivity. }
+  destruct R as [h1 R]. rewrite R.
+  (* checkFrame *)
+  unfold rtu_check, rtu_check_body.
+  destruct (rtu_populate_total cfg buf h1 Hr Hw ltac:(lia)) as (u & s & c & P & Hs). rewrite P.
+  cbn [r_hdr h_len r_buf]. rewrite rc_chk_data_hi_closed, rc_chk_crc_lo_closed, rc_chk_crc_hi_closed.
+  destruct (split_at2 buf (s - 2) ltac:(lia) ltac:(lia)) as (xs & c0 & c1 & z & Eb & Hx).
+  rewrite Eb. rewrite (pyslice_prefix xs ([c0; c1] ++ z)) by lia.
+  rewrite (pyslice_mid xs [c0; c1] z) by (unfold zlen in *; cbn [length]; lia).
+  rewrite py_index_app_head.
+  assert (E2 : py_index [c0; c1] 1 = Ok c1) by (apply py_index_ok; [lia | reflexivity]). rewrite E2.
+  assert (Hwx : wfb xs = true) by (rewrite Eb, wfb_app in Hw; apply andb_prop in Hw; tauto).
+  rewrite rc_chk_crc_val_closed, py_check_crc_spec by exact Hwx.
+  destruct (Z.of_N (swap16 (crc16_bitwise xs)) =? Z.shiftl (zb c0) 8 + zb c1).
+  2: { cbn [caught_by_check rtu_reset r_buf]. intros H. inversion H. right. left. repeat split; reflexivity. }
+  cbn [r_hdr h_uid].
+  destruct (validate_unit cfg (Some (zb u))) as [[|]|e].
+  3: { intros H. inversion H. left. discriminate. }
+  2: { intros H. inversion H. right. left. repeat split; reflexivity. }
+  unfold rtu_process, rtu_get_frame. cbn [r_hdr h_len h_uid r_buf].
+  destruct (cf_dec cfg _); try (intros H; inversion H; left; discriminate).
+  intros H. inversion H. right. right. eexists. split; [reflexivity|]. split; [reflexivity|].
+  unfold rtu_advance. cbn [r_hdr h_len r_buf]. rewrite rc_adv_closed.
+  fold (zlen (pyslice (xs ++ [c0; c1] ++ z) (Some s) None)). unfold zlen at 1.
+  change (xs ++ c0 :: c1 :: z) with (xs ++ [c0; c1] ++ z). rewrite <- Eb.
+  rewrite pyslice_from_len' by lia. lia.
+Qed.
+
+
+Lemma server_rule_b fc : rule_tot_b (lookup_rule server_decoder fc) = true.
+Proof.
+  apply (lookup_rule_P (fun r => rule_tot_b r = true)); [|reflexivity].
+  assert (H : forallb (fun row => rule_tot_b (cr_rule row)) (dc_classes server_decoder) = true) by (vm_compute; reflexivity).
+  rewrite forallb_forall in H. apply Forall_forall. exact H.
+Qed.
+
+Lemma rule_max_of_bool r data n : rule_tot_b r = true -> wfb data = true -> frame_size r data = Ok n -> n <= 268.
+Proof.
+  destruct r as [k|p| | |]; cbn [rule_tot_b frame_size]; try discriminate; intros Hb Hw H.
+  - inversion H. lia.
+  - destruct (py_index data p) as [b|] eqn:E; [|discriminate]. cbn [bind] in H. rewrite cc_rtu_size_closed in H.
+    apply py_index_nth in E; [|lia]. destruct E as [Nn _]. pose proof (nth_error_wfb _ _ _ Hw Nn).
+    inversion H. unfold zb. lia.
+Qed.
+
+(* the header bound is an invariant of the request-direction receiver: it holds initially and
+   after every call that returns normally (after an exception the handlers reset the framer) *)
+Lemma hdr_bounded_init : hdr_bounded (r_hdr rtu_init).
+Proof. right. exists 0. split; [reflexivity|lia]. Qed.
+
+Lemma hdr_bounded_empty : hdr_bounded hdr_empty.
+Proof. left. reflexivity. Qed.
+
+Theorem rtu_recv_hdr_bounded cfg st chunk st' ds :
+  cf_rules cfg = server_decoder -> wfb (r_buf st ++ chunk) = true -> hdr_bounded (r_hdr st) ->
+  rtu_recv cfg st chunk = (st', ds, FOk) -> hdr_bounded (r_hdr st').
+Proof.
+  intros Hr Hw Hh. unfold rtu_recv. set (st0 := {| r_buf := r_buf st ++ chunk; r_hdr := r_hdr st |}).
+  destruct (rtu_ready cfg st0) as [st1 [[|]|e]] eqn:R; try (intros H; discriminate H).
+  - (* ready: every normal outcome ends with an empty header *)
+    destruct (rtu_check cfg st1) as [st2 [[|]|e]]; try (intros H; discriminate H).
+    + destruct (validate_unit cfg _) as [[|]|e]; try (intros H; discriminate H).
+      * unfold rtu_process. destruct (rtu_get_frame st2); try (intros H; discriminate H).
+        destruct (cf_dec cfg _); try (intros H; discriminate H).
+        destruct (h_uid (r_hdr st2)); try (intros H; discriminate H).
+        intros H. inversion H. unfold rtu_advance. destruct (h_len (r_hdr st2)); apply hdr_bounded_empty.
+      * intros H. inversion H. apply hdr_bounded_empty.
+    + destruct (r_buf st2); intros H; inversion H; apply hdr_bounded_empty.
+  - (* not ready: header unchanged, {} , or freshly populated from the oracle *)
+    intros H. inversion H. subst st1. clear H. revert R. unfold rtu_ready.
+    destruct (beval _ (rc_ready rtu)); [|intros R; inversion R; exact Hh].
+    cbn [st0 r_hdr].
+    destruct (hdr_is_empty (r_hdr st)) eqn:He.
+    + destruct (rtu_populate cfg st0) as [sp [e|]] eqn:P.
+      * destruct e; intros R; inversion R; subst; try apply hdr_bounded_empty.
+      * pose proof P as P'. apply rtu_populate_ok in P'. destruct P' as (u & fc & size & _ & _ & Fs & _ & _ & Hl).
+        rewrite Hr in Fs. cbn [st0 r_buf] in Fs.
+        pose proof (rule_max_of_bool _ _ _ (server_rule_b (zb fc)) Hw Fs) as Hm.
+        destruct (hdr_is_empty (r_hdr sp)); [intros R; inversion R; subst; right; exists size; split; assumption|].
+        rewrite Hl. intros R. inversion R. subst. right. exists size. split; assumption.
+    + unfold st0. cbn [r_hdr]. rewrite He. destruct (h_len (r_hdr st)); intros R; inversion R; subst; exact Hh.
+Qed.
